@@ -54,7 +54,7 @@ def dump(filters, log=print, timeout=3000):
     # drop stale dumps (other tree states)
     for d in os.listdir(MIR_ROOT):
         p = os.path.join(MIR_ROOT, d)
-        if d != key and os.path.isdir(p) and time.time() - os.path.getmtime(p) > 120:
+        if d != key and os.path.isdir(p) and time.time() - os.path.getmtime(p) > 900:
             shutil.rmtree(p, ignore_errors=True)
     tmp = out + ".tmp%d" % os.getpid()
     shutil.rmtree(tmp, ignore_errors=True)
